@@ -290,7 +290,7 @@ func (o *c04) Step(r *StepRec) []Violation {
 		}
 		base := int64(0)
 		if rp, err := ParseRefPricing(preB.Pricing); err == nil {
-			base = rp.Base
+			base = o.w.cfg.InBase(rp)
 		} else {
 			continue
 		}
